@@ -21,6 +21,9 @@ def check(run):
     for i in range(n):
         sessions.append(refexp.gen_session(rng, compress=rng.choice(["n", "n", "n", "g", "x"]), target=rng.choice(["fd", "fd", "nm"]),
                                            maxes=rng.choice([None, [0, 1, 2, 3], [2, 3, 5]])))
+    for m in (2**32, 2**40, 2**63, 2**64 - 1):           # "no limit, I write the blocks myself": max_block_items at the top of its range
+        for _ in range(2 if quick else 20):
+            sessions.append(refexp.gen_session(rng, maxes=[m, 3], nbps=rng.choice([1, 2])))
     for i in range(6 if quick else 100):     # outputs > 64 KiB, blocks > 2 KiB
         sessions.append(refexp.gen_session(rng, nops=rng.choice([300, 800]), maxes=[100, 5, 1000], stats_p=0.1))
     # every alignment of later writes relative to the encoder's 2 KiB staging buffer
